@@ -234,7 +234,7 @@ func seqToList(s *slip.Scope, seq slip.Object, name string, start, end, depth in
 	if start == 0 && end == -1 && len(list) == 0 {
 		return
 	}
-	if len(list) <= start {
+	if len(list) < start {
 		slip.ErrorPanic(s, depth, "Start of %d is out of bounds for %s with length %d.", start, name, len(list))
 	}
 	if end == -1 {
